@@ -31,7 +31,7 @@ Readings (weakest reasonable):
   * the textual details of other entries may change (sub-type details move to the next entry): only sets and numbers count.
 """
 import os, threading
-import vf, campaign
+import vf, campaign, difftree
 from checks import _suppr as S
 
 MALFORMED = ["(", "a[", "*a", "a{"]
@@ -137,6 +137,10 @@ def main():
                         r0 = base[redundant]
                         r1 = S.abidiff(tool, a, b, ["--redundant"] if redundant else [], suppr=f, env=env)
                         after = S.project(r1.out)
+                        if not redundant and (r1.out != r0.out or k % 4 == 0):      # hook H3: the forest after the suppression pass (DiffTreeTrace)
+                            te = difftree.tree_event(tool, a, b, [], env, idx, suppr=f, base=r1, extra={"sub": sub, "k": k, "supprFile": f})
+                            if te is not None:
+                                evs.append(("tree",) + te)
                         gone = sorted(set(n for sn in S.SECS for n in proj[redundant][sn]) - set(n for sn in S.SECS for n in after[sn]))
                         evs.append(("ok", {"e": "HideOne", "case": idx, "sub": sub, "k": k, "stratum": name, "section": s, "target": target["name"],
                                            "ifaces": changed, "members": members, "env": {"paths": [a, b], "sonames": ["", ""]}, "redundant": redundant,
@@ -151,10 +155,12 @@ def main():
                 for versioned in ((False, True) if c.thorough else ((i + (direction == "ba")) % 2 == 0,)):
                     todo.append((i, cs, comp, direction, versioned))
     res = [x for xs in vf.pmap(one, todo) for x in xs]
-    events = []
-    for kind, x in res:
-        if kind == "discard":
-            c.discard(x)
+    events, trees = [], []
+    for kind, x, *more in res:
+        if kind == "discard" or (kind == "tree" and x == "discard"):
+            c.discard(more[0] if more else x)
+        elif kind == "tree":
+            trees.append(more[0])
         else:
             events.append(x)
     S.tick(c, "replayed")
@@ -164,6 +170,10 @@ def main():
         raise err[0]
     case_of = lambda ev: dict(campaign.case_files(os.path.join(c.workdir, "p%d" % ev["case"], ev["sub"])), **{"section.suppr": S.supprfile.render(ev["section"])})
     S.validate(c, events, case_of)
+    tree_case = lambda ev: dict(campaign.case_files(os.path.join(c.workdir, "p%d" % ev["case"], ev["sub"])), **{"section.suppr": open(ev["supprFile"]).read()})
+    vf.pmap(lambda i: c.validate("DiffTreeTrace.tla", "DiffTreeTrace.cfg", trees[i:i + 400], case_of=tree_case), range(0, len(trees), 400), jobs=6)
+    c.cov["diff_forests_validated"] = len(trees)
+    c.cov["diff_forests_with_suppressed_nodes"] = sum(1 for t in trees if any(n["sup"] for n in t["nodes"]))
     S.tick(c, "validated")
     live = [e for e in events if not e.get("_skipped")]
     c.cov["evaluations"] = len(live)
